@@ -263,20 +263,33 @@ def _nonherm(spec, ctx, R):
         cc[np.arange(n), np.arange(n), 1] = np.linspace(1.0, 0.1, n)
         P = refq.rand_unitary(rng, n)
         A = refq.matmul(refq.matmul(P, refq.qa(cc)), refq.herm(P))
+    kind_nh = spec["idx"] % 7
+    if not herm and kind_nh in (4, 5) and n >= 2:
+        # nilpotent inputs (strictly triangular, index up to n): the iterate reaches the exact zero vector after finitely many steps
+        cc = rng.standard_normal((n, n, 4)) * (np.triu(np.ones((n, n)), 1) if kind_nh == 4 else np.tril(np.ones((n, n)), -1))[..., None]
+        A = refq.qa(cc)
+        ctx.hit("nh:nilpotent")
     if not herm:
         ctx.hit("nh:complex_path")
+    # the documented options, in every combination over the cases: res_tol (None disables the residual stop), block_purify, subfield axis
+    res_tol_opt = [1e-10, None, 1e-6][(spec["idx"] // 7) % 3]
+    purify_opt = bool((spec["idx"] // 21) % 2)
+    axis_opt = "x"
+    opts = {"res_tol": res_tol_opt, "block_purify": purify_opt}
+    ctx.hit(f"nh:options:res_tol={res_tol_opt},block_purify={purify_opt}")
     s1 = float(embed.svals(A)[0])
     A0 = refq.fa(A).copy()
     sd = int(rng.integers(0, 1000))
     cap = int(rng.choice([5, 200, 2000]))
-    det = {"n": n, "hermitian": herm, "cap": cap, "seed": sd}
-    ctx.distinct(A, cap, sd, nontrivial=n >= 2)
+    det = {"n": n, "hermitian": herm, "cap": cap, "seed": sd, "options": {k: str(v) for k, v in opts.items()}}
+    ctx.distinct(A, cap, sd, str(opts), nontrivial=n >= 2)
     outs = {}
     for fmt in ("complex", "quaternion"):
         for rv in (True, False):
             np.random.seed(sd)
             try:
-                out = U.power_iteration_nonhermitian(A, max_iterations=cap, seed=sd, return_vector=rv, eigenvalue_format=fmt)
+                with np.errstate(all="ignore"):
+                    out = U.power_iteration_nonhermitian(A, max_iterations=cap, seed=sd, return_vector=rv, eigenvalue_format=fmt, **opts)
             except Exception as ex:
                 ctx.check("unexpected_exception", False, site=f"power_iteration_nonhermitian[{fmt},{rv}]", detail={**det, "exception": repr(ex)})
                 continue
